@@ -12,6 +12,8 @@ import (
 	"github.com/iancoleman/orderedmap"
 	"github.com/meshplus/bitxhub-core/boltvm"
 	"github.com/meshplus/bitxhub-core/governance"
+	ruleMgr "github.com/meshplus/bitxhub-core/rule-mgr"
+	"github.com/meshplus/bitxhub-core/validator"
 	nodemgr "github.com/meshplus/bitxhub-core/node-mgr"
 	service_mgr "github.com/meshplus/bitxhub-core/service-mgr"
 	"github.com/meshplus/bitxhub-model/pb"
@@ -405,3 +407,47 @@ func ZZH_C01_reuse_interchain() { zzObjectReuse(zzInterchainAddr) }
 func ZZH_C01_reuse_txmgr()      { zzObjectReuse(zzTMAddr) }
 func ZZH_C01_reuse_node()       { zzObjectReuse(zzNodeAddr) }
 func ZZH_C01_reuse_dapp()       { zzObjectReuse(zzDappAddr) }
+
+const zzMallory = "0xC000000000000000000000000000000000000003"
+
+// ZZH_C17_rejected_applicant: an account applies for appchain chX through the real
+// RegisterAppchain and the application is rejected (or, for comparison, approved) through the real
+// AppchainManager.Manage. After a rejection the applicant has no authority over the id: when the
+// id is taken by another party's available chain, the rejected applicant's LogoutAppchain /
+// FreezeAppchain-by-self attempts are refused without effect. After an approval the same call by
+// the admin is accepted (vacuity guard).
+func ZZH_C17_rejected_applicant() {
+	w, cs := zzFullWorld()
+	w.audit = zz.Choice("audit", 2) == 1
+	zzPutGovAdmins(w, 4)
+	w.caller = zzMallory
+	ret, err := zzInvoke(w, cs[zzAppchainAddr], zzAppchainAddr, zzMallory, "RegisterAppchain", []*pb.Arg{
+		pb.String("chX"), pb.String("nameX"), pb.Bytes(nil), pb.String("ETH"), pb.Bytes([]byte("root")), pb.String("0xBroker"), pb.String("desc"),
+		pb.String(validator.HappyRuleAddr), pb.String("url"), pb.String(zzMallory), pb.String("reason")})
+	zz.Assert("C17.applicant.submitted", err == nil)
+	var gr governance.GovernanceResult
+	_ = json.Unmarshal(ret, &gr)
+	p, ok := zzProposalOf(w, gr.ProposalID)
+	zz.Assert("C17.applicant.proposal", ok)
+	approved := zz.Choice("verdict", 2) == 1
+	result := string(REJECTED)
+	if approved {
+		result = string(APPROVED)
+	}
+	_, err = zzInvoke(w, cs[zzAppchainAddr], zzAppchainAddr, zzGovAddr, "Manage",
+		[]*pb.Arg{pb.String(string(governance.EventRegister)), pb.String(result), pb.String(""), pb.String("chX"), pb.Bytes(p.Extra)})
+	zz.Assert("C17.applicant.concluded", err == nil)
+	if !approved {
+		// the id is free again: another party's chain now lives under it
+		w.putObj(zzAppchainAddr, appchainMgr.AppchainKey("chX"), appchainMgr.Appchain{ID: "chX", ChainName: "other", ChainType: "ETH", Status: governance.GovernanceAvailable})
+		w.putObj(zzRuleAddr, ruleMgr.RuleKey("chX"), []*ruleMgr.Rule{{Address: validator.HappyRuleAddr, ChainID: "chX", Master: true, Status: governance.GovernanceAvailable}})
+	}
+	snap := w.snapshot()
+	before := w.effects
+	_, lerr := zzInvoke(w, cs[zzAppchainAddr], zzAppchainAddr, zzMallory, "LogoutAppchain", []*pb.Arg{pb.String("chX"), pb.String("mine")})
+	if approved {
+		zz.Cover("C17.applicant.admin-of-approved-chain-accepted", lerr == nil)
+	} else {
+		zz.Assert("C17.applicant.rejected-applicant-has-no-authority", lerr != nil && w.effects == before && w.unchanged(snap))
+	}
+}
